@@ -320,7 +320,39 @@ func (r *lisRig) trailCopy() []trailEv {
 // log of hook arrivals (see the W_* predicates of spec/proc/Listener.tla).
 func (r *lisRig) classifyHang() (string, []string) {
 	st, _ := proc.VerifListenerStateOf(r.l)
-	return classifyTrail(r.trailCopy(), st.Done, r.sock.isOpen())
+	tr := r.trailCopy()
+	w, serve := classifyTrail(tr, st.Done, r.sock.isOpen())
+	if strings.HasPrefix(w, "other:waitConns") {
+		// Serve waits for a handler whose connection nobody closed. Was the connection admitted
+		// after Stop had looked at the registry (its arrival at listener.Stop.readLn)?
+		var nSnap int64
+		enter := map[string]int64{}
+		for _, e := range tr {
+			if e.Point == "listener.Stop.readLn" && nSnap == 0 {
+				nSnap = e.N
+			}
+			if e.Point == "handler.enter" && strings.HasPrefix(e.Role, "h:") {
+				enter[e.Role[2:]] = e.N
+			}
+		}
+		late, early := false, false
+		for h, p := range r.peersSnapshot() {
+			if n, ok := enter[h]; ok && !p.sawClosed() {
+				if nSnap > 0 && n > nSnap {
+					late = true
+				} else {
+					early = true
+				}
+			}
+		}
+		switch {
+		case late:
+			return "W_AddAfterStop", serve
+		case early:
+			return "conn-not-closed", serve
+		}
+	}
+	return w, serve
 }
 
 // classifyTrail: tr is the ordered log of one listener (roles serve/stop/drain/env).
@@ -457,8 +489,18 @@ func (r *lisRig) judge(res *Result, deadline time.Duration, baseline int) {
 		res.find("after-stop/port-open", "the listening port still accepts connections after Stop returned")
 	}
 	for h, p := range r.peersSnapshot() {
-		if !p.waitClosed(2 * time.Second) {
-			res.PeersOpen = append(res.PeersOpen, h)
+		if r.wasAccepted(h) {
+			if !p.waitClosed(2 * time.Second) {
+				res.PeersOpen = append(res.PeersOpen, h)
+			}
+			continue
+		}
+		// never handed to the listener by Accept: at most a half-open leftover of the kernel
+		if !p.waitClosed(100 * time.Millisecond) {
+			p.poke()
+			if !p.waitClosed(2 * time.Second) {
+				res.PeersOpen = append(res.PeersOpen, h)
+			}
 		}
 	}
 	if len(res.PeersOpen) > 0 {
@@ -508,6 +550,13 @@ func (r *lisRig) peersSnapshot() map[string]*peer {
 		out[k] = v
 	}
 	return out
+}
+
+// wasAccepted: Accept returned the peer's connection (its handler reached addConn).
+func (r *lisRig) wasAccepted(h string) bool {
+	r.mu.Lock()
+	defer r.mu.Unlock()
+	return r.addN[h] > 0
 }
 
 func (r *lisRig) wasServed(h string) bool {
@@ -563,7 +612,9 @@ func (r *lisRig) acceptedAfterDrain(res *Result) {
 func (r *lisRig) cleanup() {
 	for _, p := range r.peersSnapshot() {
 		p.close()
+		releasePort(p.lport)
 	}
 	r.freePort()
 	unwatchSocket(r.addr)
+	releasePort(r.port)
 }
